@@ -246,6 +246,11 @@ def shard_include(shard):
             (b'sec { x = 2 }\nm { }\ninclude("a.conf")', {b'a.conf': T}),
             (b'include("a.conf")\n' + T, {b'a.conf': b'sec { x = 2 }\nm { }\n'}),
             (b'include("a.conf")\ninclude("b.conf")', {b'a.conf': b'sec {\n}\n', b'b.conf': T}),
+            # a section that begins in one source and ends in another at the same include depth (header / footer files),
+            # one that an included file leaves open for the including one, one that an included file closes
+            (b'include("a.conf")\ninclude("b.conf")', {b'a.conf': b'sec {\nx = 3\n', b'b.conf': b'\n}\n' + T}),
+            (b'include("a.conf")\n}\n' + T, {b'a.conf': b'\n\nsec {\n'}),
+            (b'sec {\ninclude("a.conf")\n' + T, {b'a.conf': b'x = 3\n\n}\n'}),
         ]
     # vacuity guard: with an accepted text in the slot every arrangement is accepted by the model
     for main, files in variants_of(b'i = 8'):
